@@ -122,8 +122,10 @@ class TreeModel:
                                    node=call, fn=fn, recv=recv))
             rec = args[3] if len(args) > 3 else kwargs.get("rec")
             if isinstance(rec, LocalFn) and len(args) > 2:
-                # a refinement may ask for values of the base type through the callback it is given
-                it.call_local(rec, [args[2]], {}, 1, env)
+                # a refinement may ask for values through the callback it is given: of the base type, or - the list
+                # refinements - of the element type of a list base type
+                base = args[2]
+                it.call_local(rec, [base.args[0] if isinstance(base, TypeV) and base.kind == "list" and base.args else base], {}, 1, env)
             return Sym("generated")
         if nm == "get_dependencies" and isinstance(call.func, ast.Attribute):
             recv = it.ev(call.func.value, env, 9)
